@@ -24,7 +24,7 @@ W = dict(dual_fwd=0.25, ref=0.45, fwd=0.45, nick=0.5, dotted=0.35, nested=0.18, 
 
 
 DIRECTED = [S.stream_shared_nick_forward, S.stream_shared_nick_forward, S.stream_idle_middle, S.stream_once_cluster,
-            S.stream_randref_nicks]
+            S.stream_randref_nicks, S.stream_nick_spelled_like_table]
 
 
 def gen_case(rng):
